@@ -119,7 +119,7 @@ def run(ctx):
     kinds = {}
     known_hits = 0
     corr_dis = None
-    corr_left = (200 if ctx.tier == "quick" else 2400) if (HAVE_COQ and model_ok) else 0
+    corr_left = (150 if ctx.tier == "quick" else 2400) if (HAVE_COQ and model_ok) else 0
     corr_cov = {"model_instances_replayed": 0, "model_steps_compared": 0, "model_disagreements": 0}
     sample = None
     BATCH = 600
